@@ -605,7 +605,8 @@ def gen_leak_spec(rng):
     sp = gen_shape(rng, nmin=3, nmax=7, flags=True, reuse=True, mc_max=3)
     sp["params"] = ["x", "y"]
     sp["defaults"] = {"y": rng.choice([("D", 1), ("D", 1), 0, None, ""])}
-    indexed = {a[1] for m in sp["nodes"] for a in list(m["args"]) + list(m["kwargs"].values()) if a[0] == "n" and a[2]}
+    indexed = {a[1] for m in sp["nodes"] for a in list(m["args"]) + list(m["kwargs"].values()) + ([m["active"]] if m.get("active") else [])
+               if a[0] == "n" and a[2]}
     for i_, nd in enumerate(sp["nodes"]):
         if nd["active"] is None and i_ not in indexed and rng.random() < 0.15:
             # the activation flag is a defaulted DAG argument (truthy in some calls, falsy in others); never on a call whose
@@ -958,7 +959,9 @@ def _c18_case(col, rng, cidx, tmpdir, jobref=None):
     def spell18(dag_obj, plan):
         return [w if k == "tag" else (ids[w] if k == "id" else dag_obj.get_node_by_id(ids[w])) for k, w in plan]
 
-    d, _e, _p = S.build_tawazi(sp, plain=plain)
+    # (the source is a script in the caching run - its functions live in `__main__` - and an imported module in the restart)
+    mods18 = ("__main__", "pipeline_module") if rng.random() < 0.5 else ("pipeline_module", "pipeline_module")
+    d, _e, _p = S.build_tawazi(sp, plain=plain, extra_env={"__name__": mods18[0]})
     path = os.path.join(tmpdir, "c%d.pkl" % cidx)
     inst_setup = {}  # id(DAG instance) -> {setup site: value computed on that instance} (setup results survive on the instance)
 
@@ -1074,7 +1077,7 @@ def _c18_case(col, rng, cidx, tmpdir, jobref=None):
     # restart
     rmode = "cache_deps_of" if mode == "cache_deps_of" else rng.choice(["whole", "same", "targets"])
     kw2 = {"from_cache": path}
-    d2, _e, _p = S.build_tawazi(sp, plain=plain)  # "a later execution of the same DAG": a fresh process would rebuild it
+    d2, _e, _p = S.build_tawazi(sp, plain=plain, extra_env={"__name__": mods18[1]})  # "a later execution of the same DAG": a fresh process would rebuild it
     dd = d2 if rng.random() < 0.5 else d
     if rmode == "cache_deps_of":
         kw2["cache_deps_of"] = spell18(dd, plan1)
